@@ -104,7 +104,7 @@ def st_rect_case(draw):
         lb, ub, _ = geom.box_cone_margin(W, l2 + t * v - u1, u2 + t * v - l1, svec)
         return (lb + ub) / 2
 
-    target = draw(st.sampled_from([1, -1])) * draw(st.sampled_from([0.1, 0.3, 1.0] if small else LEVELS)) * scale
+    target = draw(st.sampled_from([1, -1])) * draw(st.sampled_from(LEVELS)) * scale
     t = gr.solve_shift(f, target, -1e4 * scale, 1e4 * scale)
     off = draw(gr.st_offset(m, big=False))
     return {"cone": spec, "r1": gr.shift_region(r1, off), "r2": gr.shift_region({"lo": (l2 + t * v).tolist(), "hi": (u2 + t * v).tolist()}, off), "slack": s}
